@@ -371,16 +371,21 @@ class ApiGen:
                 ps = [A.Parameter(f"{fid}/self", "self", False, None, A.ParameterAssignment.IMPLICIT, D.ParameterDocstring(), None)]
                 if extra:
                     ps.append(A.Parameter(f"{fid}/{extra}", extra, False, None, A.ParameterAssignment.POSITION_OR_NAME,
-                                          D.ParameterDocstring(), int_t))
+                                          D.ParameterDocstring(description=odd if extra == "new_value" else ""), int_t))
                 f = A.Function(id=fid, name=name, docstring=D.FunctionDocstring(), is_public=public, is_static=False,
                                is_class_method=False, is_property=prop, result_docstrings=[], type_var_types=[],
                                results=[A.Result(f"{fid}/result_1", "result_1", int_t)], reexported_by=[], parameters=ps)
                 api.add_function(f)
                 return f
 
+            # LaTeX in a non-raw docstring (`\frac`, `\vec`, `\rho`) and pasted text: form feed, vertical tab, carriage return,
+            # NEL, LINE SEPARATOR inside a line — only `\n` ends a line of a description
+            odd = "Energy is \x0crac{a}{b} times \x0bec{v},\u2028pasted\x85text and \rho.\nSecond line."
+
             def plain_cls(name, supers, public, members):
                 cid = f"{m0.id}/{name}"
-                c = A.Class(id=cid, name=name, superclasses=supers, is_public=public, docstring=D.ClassDocstring())
+                c = A.Class(id=cid, name=name, superclasses=supers, is_public=public,
+                            docstring=D.ClassDocstring(description=odd if not name.startswith("_") else ""))
                 for mn, prop, extra in members:
                     c.add_method(plain_fn(cid, mn, public and not mn.startswith("_"), prop, extra))
                 api.add_class(c)
